@@ -35,6 +35,9 @@ Definition write_data (id off : N) (buf : list byte) : M unit :=
   do '(old_start, old_len) <- stream_entry id;
   (if old_len <? off then fail EInvalidInput else ret tt) ;;   (* the stream was shortened behind the handle *)
   let new_len := N.max old_len (off + lenN buf) in
+  do s0 <- get;
+  (* the same two bounds as in resize, before anything is changed *)
+  (if N.min (MAX_REGULAR_SECTOR * slen s0) (stream_len_mask (ver s0)) <? new_len then fail EInvalidInput else ret tt) ;;
   do new_start <-
     (if old_start =? END_OF_CHAIN then
        (if negb (old_len =? 0) then fail EInvalidData else if negb (off =? 0) then panic 604 else ret tt) ;;
@@ -89,6 +92,8 @@ Definition resize (id new_len : N) : M unit :=
   do s0 <- get;
   (* no file holds more than MAX_REGULAR_SECTOR sectors; refused before anything changes *)
   (if MAX_REGULAR_SECTOR * slen s0 <? new_len then fail EInvalidInput else ret tt) ;;
+  (* ... and a version 3 entry records only 32 bits of the length *)
+  (if stream_len_mask (ver s0) <? new_len then fail EInvalidInput else ret tt) ;;
   do new_start <-
     (if old_start =? END_OF_CHAIN then
        (if negb (old_len =? 0) then fail EInvalidData else ret tt) ;;
